@@ -60,6 +60,16 @@ func genC01(t *core.Tape, tier string) *Scenario {
 				}
 			}
 		}
+		if len(p.ReqMsgs) > 0 && t.Bool(1, 10, "unsendable") {
+			// one request message cannot be marshalled (as a proto3 string with
+			// invalid UTF-8 cannot): that Send fails on the client, and nothing
+			// the client did not send may reach the handler
+			sc.Clients[0].FailCodec = true
+			i := t.Choose(len(p.ReqMsgs), "unsendable.which")
+			p.ReqMsgs[i] = append(append([]byte(nil), marshalFailMarker...), p.ReqMsgs[i]...)
+			p.unsendable = i + 1
+			sc.Notes["unsendable_request_message"]++
+		}
 		stdPrograms(t, p)
 		boundSteps(p)
 		genYield(t, p)
@@ -149,6 +159,28 @@ func checkC01(w *World, st core.Status, r *RunResult) []Violation {
 			vs = append(vs, Violation{Class: "C01/" + class + "/" + tag, Msg: p.ID + ": " + msg})
 		}
 		if st != core.Done {
+			continue
+		}
+		if p.unsendable > 0 {
+			// the client could not marshal message unsendable-1: the call fails,
+			// and the handler receives at most the messages sent before it
+			r.Probes["unsendable_checked"]++
+			// (a streaming program carries on after the failed Send: the other
+			// messages are sent)
+			var sent [][]byte
+			for i, m := range p.ReqMsgs {
+				if i != p.unsendable-1 {
+					sent = append(sent, m)
+				}
+			}
+			if len(o.H.Recv) > len(sent) {
+				add("received-unsent-message", fmt.Sprintf("the client's Send of message %d failed (it cannot be marshalled), yet the handler received %d message(s): %q", p.unsendable-1, len(o.H.Recv), clip(bytes.Join(o.H.Recv, []byte("|")), 80)))
+			} else if c, m := seqMismatch(sent[:len(o.H.Recv)], o.H.Recv); c != "" {
+				add("received-unsent-message/"+c, m)
+			}
+			if (p.Kind == KUnary || p.Kind == KServer) && o.FinalSet && o.Final == nil {
+				add("unsendable-call-succeeded", "the request message could not be sent, yet the call ended in success")
+			}
 			continue
 		}
 		if o.H.Entered != 1 {
